@@ -315,6 +315,19 @@ Definition process_item (cr up de : list H) (mtb : mdib * tx * list H) (e : H * 
   | None, None => (m, t, bumped)
   end.
 
+(* every handle this transaction removes: a removal takes the whole subtree (as it is before the commit) *)
+Definition removed_handles (m : mdib) (t : tx) : list H :=
+  flat_map (fun e => if is_delete m e then subtree m (fst e) else []) (t_d t).
+
+(* process_transaction refuses, before it changes anything, a transaction that creates or updates a descriptor
+   inside a subtree that it removes (ApiUsageError) *)
+Definition subtree_conflict (m : mdib) (t : tx) : bool :=
+  let rm := removed_handles m t in
+  existsb (fun e => match snd e with
+                    | Some d => memz (fst e) rm || match d_parent d with Some p => memz p rm | None => false end
+                    | None => false
+                    end) (t_d t).
+
 Definition commit_descr (m : mdib) (t : tx) : mdib :=
   match t_d t with
   | [] => m
@@ -322,7 +335,9 @@ Definition commit_descr (m : mdib) (t : tx) : mdib :=
       let m0 := bump_ver m in
       let cr := map fst (filter (is_create m) (t_d t)) in
       let up := map fst (filter (is_update m) (t_d t)) in
-      let de := map fst (filter (is_delete m) (t_d t)) in
+      (* a removed descriptor's parent is not versioned when the parent is removed as well; an entry whose
+         descriptor already went with an ancestor's subtree is skipped (the [None, None] case of process_item) *)
+      let de := removed_handles m t in
       let '(m1, t1, _) := fold_left (process_item cr up de) (t_d t) (m0, t, []) in
       handle_state_updates m1 t1
   end.
@@ -374,6 +389,7 @@ Definition transaction (k : Z) (abort : option nat) (acts : list action) (m : md
   | Ok t =>
       match abort with
       | Some _ => (m, 4)
-      | None => (if Z.eqb k 6 then commit_descr m t else commit_states m t, 0)
+      | None => if Z.eqb k 6 then (if subtree_conflict m t then (m, 3) else (commit_descr m t, 0))
+                else (commit_states m t, 0)
       end
   end.
